@@ -63,7 +63,12 @@ FnExprs(t) ==
         \o <<Fn2("add", f, x), Fn2("sub", f, f), Fn2("mul", f, LitI(2)), Fn2("truediv", f, LitI(2)), Fn2("lt", f, x), Fn2("eq", f, f),
              Fn1("neg", f), Fn1("abs", f), Fn1("floor", f), Fn1("ceil", f), FnN("hmax", <<f, x>>), Fn2("fill_null", f, LitI(0)),
              Cast(f, "int"), Cast(x, "float"), Cast(p, "int"), Cast(Fn2("truediv", x, LitI(2)), "int"),
-             Cast(Fn1("neg", f), "int"), Fn3("clip", f, LitI(-1), LitI(1))>>
+             Cast(Fn1("neg", f), "int"), Fn3("clip", f, LitI(-1), LitI(1)),
+             Fn2("round", f, LitI(0)), Fn2("round", Fn2("add", f, Fn2("truediv", x, LitI(8))), LitI(0)), Fn2("round", x, LitI(0)),
+             Fn2("pow", x, LitI(2)), Fn2("pow", f, LitI(3)), Fn2("pow", x, LitI(0)), Fn2("pow", f, x)>>
+        \* transcendental functions: null-ness, type and domain from the specification, values back end against back end
+        \o Flat(MapS(<<"exp", "log", "log10", "sqrt", "cbrt", "sin", "cos", "tan", "asin", "acos", "atan">>, LAMBDA o :
+              <<Fn1(o, f), Fn1(o, Fn2("truediv", x, LitI(8)))>>))
 
 MovesFn(h, kn) ==
     LET t == h[1] IN
@@ -123,6 +128,8 @@ StrExprs(t) ==
           Case1D(Fn2("eq", s, LitStr(p)), LitStr(p), LitStr(<<110, 111>>)),
           FnN("coalesce", <<s, LitStr(p)>>),
           LitStr(p)>>))
+    \o <<Fn1("str_upper", s), Fn1("str_lower", s), Fn1("str_strip", s), Fn3("str_slice", s, LitI(0), LitI(1)), Fn3("str_slice", s, LitI(1), LitI(5)),
+         Fn3("str_slice", s, LitI(2), LitI(0)), Fn1("str_upper", Fn2("add", s, LitStr(<<97, 32>>))), Fn1("str_strip", Fn2("add", LitStr(<<32, 32>>), Fn2("add", s, LitStr(<<32>>))))>>
     \o <<Fn1("str_len", s), LitI(-5), LitB(FALSE), LitN, Fn2("eq", Col(ByName(t)["n"]), LitI(-1)), Fn2("add", Col(ByName(t)["n"]), LitI(-3))>>
 
 MovesStr(h, kn) ==
@@ -143,6 +150,8 @@ CastExprs(t) ==
       Cast(Cast(c("i"), "str"), "int"), Cast(Cast(c("f"), "str"), "float"), Cast(Cast(c("f"), "int"), "float"),
       Cast(Fn2("truediv", c("i"), LitI(4)), "int"), Cast(Fn1("neg", c("f")), "int"), Cast(Fn2("gt", c("i"), LitI(0)), "int"),
       Cast(LitN, "int"), Cast(LitN, "str"), Cast(LitI(7), "str"), Cast(LitI(-7), "float"),
+      Fn1("dt_year", c("d")), Fn1("dt_month", c("d")), Fn1("dt_day", c("d")), Fn1("dt_year", c("dt")), Fn1("dt_month", c("dt")), Fn1("dt_day", c("dt")),
+      Fn1("dt_hour", c("dt")), Fn1("dt_minute", c("dt")), Fn1("dt_second", c("dt")), Fn1("dt_year", Cast(c("d"), "datetime")),
       \* constant operands (python literals)
       Cast(LitDt, "date"), Cast(LitD, "datetime"), Cast(Cast(LitDt, "date"), "str"), Cast(LitDt, "str"), Cast(LitD, "str"),
       Cast(LitB(TRUE), "int"), Cast([k |-> "lit", ty |-> "float", v |-> [n |-> -7, d |-> 2]], "int"),
